@@ -99,6 +99,13 @@ Theorem C09_byte_len_fits : forall n, n < 2 ^ 64 -> n < 256 ^ byte_len n /\ byte
 Proof. exact byte_len_fits. Qed.
 Print Assumptions C09_byte_len_fits.
 
+(** … and is minimal at every power of 256 (finite: the seven boundaries of a u64, computed): 256^k - 1 needs k bytes, 256^k and
+    256^k + 1 need k + 1. *)
+Theorem C09_byte_len_boundaries : forallb (fun k => (byte_len (256 ^ k - 1) =? k) && (byte_len (256 ^ k) =? k + 1) && (byte_len (256 ^ k + 1) =? k + 1))
+          [1; 2; 3; 4; 5; 6; 7] = true /\ byte_len 0 = 1 /\ byte_len 1 = 1 /\ byte_len (2 ^ 64 - 1) = 8.
+Proof. exact byte_len_boundaries. Qed.
+Print Assumptions C09_byte_len_boundaries.
+
 (** The cross-reference stream written by save decodes (parse_xref_section_from_stream, /W [1 a b],
     /Index [0 n]) to exactly the table that was written: every entry, in order, nothing left over. *)
 Theorem C09_xref_roundtrip : forall es aw bw data,
